@@ -1723,6 +1723,171 @@ def o5m_prefetch_rules(fb, R, PARSER=NS + 'O5mParser', ENSURE='ensure_bytes_avai
                     % (fn.q, ENSURE, what, what), detail={'result_used': used})
 
 
+# ================================================================================================ guard tests what is consumed
+
+R_RANGE = 'pbf-range-guard-tests-consumed-range'
+
+
+def _range_var(fn, recv):
+    r = fn.root_var(recv) if recv is not None else None
+    return r if r is not None and r[0] == 'var' else None
+
+
+def pbf_range_guard_rules(fb, R, RANGE=codec.VARINT_RANGE):
+    """A value taken from a packed range X (`X.next_<k>()`) under emptiness guards must be under the guard of X itself."""
+    n_inst = 0
+    seen = set()
+    for fn in fb.functions:
+        if not fn.has_cfg:
+            continue
+        for c in fn.all_nodes():
+            if c.get('k') != 'call' or c.get('rcls') != RANGE or not c.get('q', '').rsplit('::', 1)[-1].startswith('next_'):
+                continue
+            x = _range_var(fn, c.get('recv'))
+            if x is None:
+                continue
+            nonempty = {}
+            for (g, sense, _b) in edge_guards(fn, c['id']):
+                n = fn.sn(g)
+                if n is not None and n.get('k') == 'call' and n.get('q') == RANGE + '::empty' and not sense:
+                    y = _range_var(fn, n.get('recv'))
+                    if y is not None:
+                        nonempty[y[1]] = y[2]
+            if not nonempty:
+                continue    # consumed without any emptiness guard: running dry raises end_of_buffer, not a silent mix-up
+            key = '%s#%s.next' % (fn.q, x[2])
+            if (fn.pat, c.get('o')) in seen:
+                continue
+            seen.add((fn.pat, c.get('o')))
+            n_inst += 1
+            R.check(x[1] in nonempty, R_RANGE, key, fn.loc(c['id']),
+                    '%s takes a value from `%s` under the guard that %s %s not empty, but `%s` itself is not tested: when the file carries '
+                    '%s without `%s` the read runs past the end of the field (end_of_buffer), and when it carries `%s` without %s the '
+                    'values are never decoded' % (fn.q, x[2], ' / '.join('`%s`' % v for v in sorted(nonempty.values())),
+                                                  'are' if len(nonempty) > 1 else 'is', x[2],
+                                                  ' / '.join(sorted(nonempty.values())), x[2], x[2], ' / '.join(sorted(nonempty.values()))),
+                    detail={'guarded_non_empty': sorted(nonempty.values())})
+    if n_inst == 0:
+        R.broken('no guarded varint_range::next_*() call found')
+
+
+# ================================================================================================ per-iteration state is fresh
+
+R_FRESH = 'loop-state-fresh-per-iteration'
+SINK_BASES = ('osmium::builder::Builder',)
+
+
+def _is_sink_class(fb, rcls):
+    if rcls in SINK_BASES:
+        return True
+    rec = fb.record(rcls) if rcls else None
+    return rec is not None and any(b in rec.allbases for b in SINK_BASES)
+
+
+def _direct_var(fn, nid):
+    """The local / parameter an argument expression names directly (through wrappers, casts and copy construction), else None."""
+    x = nid
+    hops = 0
+    while x is not None and x in fn.nodes and hops < 12:
+        hops += 1
+        n = fn.nodes[x]
+        k = n.get('k')
+        if k in ('wrap', 'icast', 'cast') and 'sub' in n:
+            x = n['sub']
+        elif k == 'construct' and len(n.get('args', [])) == 1 and (n.get('elidable') or n.get('copymove')):
+            x = n['args'][0]
+        elif k == 'var' and n.get('vk', 'local') in ('local', 'param'):
+            return n
+        else:
+            return None
+    return None
+
+
+def _writes_of(fb, fn, d):
+    """ids of CFG elements that may (re)define local d: declaration, assignment, ++/--, address taken, non-const member call,
+    passed to a non-const reference / pointer parameter (unknown callee => counted as a write: prefer a miss to a false alarm)."""
+    out = set()
+    for n in fn.all_nodes():
+        k = n.get('k')
+        if k == 'decl':
+            if any(v['d'] == d for v in n['vars']):
+                out.add(n['id'])
+        elif k == 'assign':
+            r = fn.root_var(n['lhs'])
+            if r is not None and r[0] == 'var' and r[1] == d:
+                out.add(n['id'])
+        elif k == 'unop' and n.get('op') in ('++', '--', '&'):
+            r = fn.root_var(n['sub'])
+            if r is not None and r[0] == 'var' and r[1] == d:
+                out.add(n['id'])
+        elif k in ('call', 'construct'):
+            if k == 'call' and n.get('recv') is not None:
+                r = fn.root_var(n['recv'])
+                if r is not None and r[0] == 'var' and r[1] == d:
+                    callee = fb.by_usr.get(n.get('u'), [])
+                    if not (callee and callee[0].const):
+                        out.add(n['id'])
+            callee = fb.by_usr.get(n.get('u'), []) if n.get('u') else []
+            for i, a in enumerate(n.get('args', [])):
+                v = _direct_var(fn, a) if a is not None else None
+                if v is None or v.get('d') != d:
+                    continue
+                if callee and i < len(callee[0].params):
+                    t = callee[0].params[i]['tC']
+                    if (t.endswith('&') or t.endswith('*')) and not t.startswith('const '):
+                        out.add(n['id'])
+                elif not callee:
+                    # callee body unknown: by-value / const-ref cannot be told apart from the facts of the call alone
+                    if not _is_sink_class(fb, n.get('rcls')):
+                        out.add(n['id'])
+    return out
+
+
+def loop_state_rules(fb, R, files=('/io/detail/opl_parser_functions.hpp', '/io/detail/o5m_input_format.hpp', '/io/detail/pbf_decoder.hpp',
+                                   '/io/detail/xml_input_format.hpp')):
+    """A value handed to a builder every iteration must have been (re)defined in that iteration: no path from one execution of the
+    builder call to its next execution that avoids every definition of the variable, when the loop does redefine it somewhere."""
+    n_inst = 0
+    seen = set()
+    for fn in fb.functions:
+        if not fn.has_cfg or not fn.loops or not any(fn.file.endswith(f) for f in files):
+            continue
+        wcache = {}
+        for c in fn.all_nodes():
+            if c.get('k') != 'call' or not c.get('args') or not _is_sink_class(fb, c.get('rcls')):
+                continue
+            enclosing = [l for l in fn.loops if fn.in_range(c['id'], l['b'], l['e'])]
+            if not enclosing:
+                continue
+            lo = min(l['b'] for l in enclosing)
+            hi = max(l['e'] for l in enclosing)
+            for a in c['args']:
+                v = _direct_var(fn, a) if a is not None else None
+                if v is None:
+                    continue
+                d = v['d']
+                if d not in wcache:
+                    wcache[d] = _writes_of(fb, fn, d)
+                w_loop = {w for w in wcache[d] if fn.in_range(w, lo, hi) and w != c['id']}
+                if not w_loop:
+                    continue    # not redefined inside the loop: loop-invariant input
+                key = '%s#%s(%s)' % (fn.q, c['q'].rsplit('::', 1)[-1], v['name'])
+                if (fn.pat, c.get('o'), d) in seen:
+                    continue
+                seen.add((fn.pat, c.get('o'), d))
+                n_inst += 1
+                cid = c['id']
+                w = path_search(fn, cid, lambda e: e == cid, lambda e: e in w_loop)
+                R.check(w is None, R_FRESH, key, fn.loc(cid),
+                        '%s: `%s` is handed to %s on every iteration but is only conditionally (re)defined inside the loop: on the path %s the '
+                        'value of the previous iteration is used again (e.g. an element without the optional part inherits it from its '
+                        'predecessor); declare it inside the loop body or reset it at the top of each iteration'
+                        % (fn.q, v['name'], c['q'].rsplit('::', 1)[-1], describe_path(fn, [p for p in (w or []) if not isinstance(p, tuple)][:6])),
+                        detail={'definitions_in_loop': len(w_loop)})
+    if n_inst == 0:
+        R.broken('no builder call fed from a loop-defined local found')
+
+
 # ================================================================================================ XML attribute order
 
 R_XATTR = 'xml-attribute-branch-own-field'
@@ -1967,6 +2132,8 @@ def run(ctx):
         xml_attribute_rules(fb, R)
         pbf_field_number_rules(fb, R)
         o5m_prefetch_rules(fb, R)
+        pbf_range_guard_rules(fb, R)
+        loop_state_rules(fb, R)
     # instance floors, each count confirmed by reading the pristine tree (the evidence file lists the instances)
     floors = [
         (R_DEFAULT, 13),    # 13 switches over tag_and_type(): 9 in PBFPrimitiveBlockDecoder, decode_blob, decode_header_bbox, decode_header_block, decode_blob_header
